@@ -534,6 +534,14 @@ class UserSecurityModel(
         security = USMSecurityParameters.decode(
             response_msg.security_parameters
         )
+        if not (
+            isinstance(security.authoritative_engine_id, bytes)
+            and isinstance(security.authoritative_engine_boots, int)
+            and isinstance(security.authoritative_engine_time, int)
+        ):
+            raise SnmpError(
+                "Invalid discovery response (malformed security parameters)"
+            )
         wrapped_vars = response_msg.scoped_pdu.data.value.varbinds
         if not wrapped_vars:
             raise SnmpError("Invalid discovery response (no varbinds returned)")
